@@ -26,7 +26,11 @@ structure AdsbGood : Prop where
   b65 : ∀ s, post Bds65.read (fun r _ => PayGood outerKeys r) s
 
 /-- keys of the DF17/18 envelope -/
-def envKeys : List Nat := [(key! "df").id, (key! "icao24").id, (key! "tisb").id]
+def envKeys : List Nat := [(key! "df").id, (key! "icao24").id, (key! "tisb").id] ++ timedKeys
+
+theorem envKeys_sub_outer : ∀ k ∈ envKeys, k ∈ outerKeys := by decide
+theorem timed_sub_env : ∀ k ∈ timedKeys, k ∈ envKeys := by decide
+theorem timed_sub_commb : ∀ k ∈ timedKeys, k ∈ Commb.commbAvoid := by decide
 
 theorem specFor_bds : specFor (key! "bds").id = none := by decide
 
@@ -48,9 +52,7 @@ theorem tagged_good {name : Key} {inner : SerFields} (h : PayGood outerKeys inne
     rcases hk with rfl | hk
     · decide
     · intro hin
-      exact hav k hk (by simp only [envKeys, List.mem_cons, List.mem_nil_iff, or_false] at hin
-                         simp only [outerKeys, List.mem_cons, List.mem_nil_iff, or_false]
-                         rcases hin with h | h | h <;> simp [h])
+      exact hav k hk (envKeys_sub_outer k hin)
   · rw [hobj]; simp only [Json.wfObj, Bool.and_eq_true]; exact ⟨rfl, hwf⟩
   · intro fs' e
     cases e
@@ -106,7 +108,7 @@ theorem me_good (H : AdsbGood) (s : Rd) : post me (fun r _ => PayGood envKeys r)
   exact meBody_good H tc s1
 
 /-- the whole message object: serialises, no duplicate key, well-formed values, ranges respected -/
-def MsgGood (r : SerFields) : Prop := SerGood [] r ∧ RangeGood r
+def MsgGood (r : SerFields) : Prop := SerGood timedKeys r ∧ RangeGood r
 
 /-- `pre ++ inner ++ post` for a good flattened payload and literal envelope fields -/
 theorem withFields_good {avoid : List Nat} {pre post : Fields} {inner : SerFields}
@@ -114,7 +116,9 @@ theorem withFields_good {avoid : List Nat} {pre post : Fields} {inner : SerField
     (hpre : ∀ kv ∈ pre ++ post, ∃ j, kv.2 = some j ∧ j.wf = true ∧
         (match specFor kv.1.id with | some c => c.holds j | none => j.inRange) = true)
     (hnd : ((pre ++ post).map (·.1.id)).Nodup)
-    (hav : ∀ k ∈ (pre ++ post).map (·.1.id), k ∈ avoid) :
+    (hav : ∀ k ∈ (pre ++ post).map (·.1.id), k ∈ avoid)
+    (htm : ∀ k ∈ timedKeys, k ∈ avoid)
+    (hpt : ∀ k ∈ (pre ++ post).map (·.1.id), k ∉ timedKeys) :
     MsgGood (withFields pre inner post) := by
   obtain ⟨⟨fs, rfl, hn, ha, hw⟩, hr⟩ := hi
   have hobj : Fields.toObj (pre ++ fs ++ post) = pre.toObj ++ fs.toObj ++ post.toObj := by
@@ -145,7 +149,21 @@ theorem withFields_good {avoid : List Nat} {pre post : Fields} {inner : SerField
     intro a b; induction a with
     | nil => simp [Json.inRangeObj]
     | cons x r ih => obtain ⟨k, v⟩ := x; simp [Json.inRangeObj, ih, Bool.and_assoc]
-  refine ⟨⟨pre ++ fs ++ post, rfl, ?_, by simp, ?_⟩, ?_⟩
+  refine ⟨⟨pre ++ fs ++ post, rfl, ?_, ?_, ?_⟩, ?_⟩
+  rotate_left
+  · rw [hobj]
+    intro k hk
+    simp only [keyIds, List.map_append, List.mem_append] at hk p1 q1
+    have p1' : List.map (fun x => x.1.id) pre.toObj = pre.map (·.1.id) := p1
+    have q1' : List.map (fun x => x.1.id) post.toObj = post.map (·.1.id) := q1
+    rcases hk with (hk | hk) | hk
+    · exact hpt k (by rw [List.map_append, List.mem_append]; left; rw [← p1']; exact hk)
+    · intro ht; exact ha k hk (htm k ht)
+    · exact hpt k (by rw [List.map_append, List.mem_append]; right; rw [← q1']; exact hk)
+  · rw [hobj, wfapp, wfapp, p2, hw, q2]; rfl
+  · intro fs' e
+    cases e
+    rw [hobj, rgapp, rgapp, p3, hr fs rfl, q3]; rfl
   · rw [hobj]
     simp only [keyIds, List.map_append] at p1 q1 ⊢
     have p1' : List.map (fun x => x.1.id) pre.toObj = pre.map (·.1.id) := p1
@@ -166,10 +184,6 @@ theorem withFields_good {avoid : List Nat} {pre post : Fields} {inner : SerField
       rcases List.mem_append.mp ha' with h | h
       · exact n3 a h a hb' rfl
       · exact (hdisj a h).2 hb'
-  · rw [hobj, wfapp, wfapp, p2, hw, q2]; rfl
-  · intro fs' e
-    cases e
-    rw [hobj, rgapp, rgapp, p3, hr fs rfl, q3]; rfl
 
 macro "env_keys" : tactic =>
   `(tactic| (simp only [dfTag, fld, List.cons_append, List.nil_append, List.append_nil, List.map_cons, List.map_nil]; decide))
@@ -189,11 +203,12 @@ theorem inRange_arr_jnat (xs : List Nat) : (Json.arr (xs.map jnat)).inRange = tr
 /-- a literal envelope (no flattened payload) -/
 theorem lit_good (fs : Fields)
     (hnd : (fs.map (·.1.id)).Nodup)
+    (hav : ∀ k ∈ fs.map (·.1.id), k ∉ timedKeys)
     (h3 : ∀ kv ∈ fs, ∀ v, kv.2 = some v → v.wf = true)
     (h4 : ∀ kv ∈ fs, ∀ v, kv.2 = some v →
       (match specFor kv.1.id with | some c => c.holds v | none => v.inRange) = true) :
     MsgGood (.ok fs) :=
-  ⟨serGood_of [] fs hnd (by simp) h3, rangeGood_of fs h4⟩
+  ⟨serGood_of timedKeys fs hnd hav h3, rangeGood_of fs h4⟩
 
 theorem squawk_octal (f : Nat) (hf : f < 2 ^ 13) :
     Constraint.holds .octal4 (jhex4 (decodeId13 f)) = true :=
@@ -218,40 +233,40 @@ theorem dfBody_good (H : AllGood) (crc id : Nat) (s : Rd) : post (dfBody crc id)
     apply post_bind; apply post_any; intro ac _
     apply post_bind; apply post_any; intro _ _
     apply post_pure
-    apply lit_good _ (by simp only [dfTag]; keys_decide) (by simp only [dfTag]; fields_cases)
+    apply lit_good _ (by simp only [dfTag]; keys_decide) (by simp only [dfTag]; keys_decide) (by simp only [dfTag]; fields_cases)
     simp only [dfTag]; range_cases
   · -- DF4
     apply post_bind; apply post_any; intro _ _
     apply post_bind; apply post_any; intro ac _
     apply post_bind; apply post_any; intro _ _
     apply post_pure
-    apply lit_good _ (by simp only [dfTag]; keys_decide) (by simp only [dfTag]; fields_cases)
+    apply lit_good _ (by simp only [dfTag]; keys_decide) (by simp only [dfTag]; keys_decide) (by simp only [dfTag]; fields_cases)
     simp only [dfTag]; range_cases
   · -- DF5
     apply post_bind; apply post_any; intro _ _
     apply post_bind; apply identityCode_post; intro f _ hf
     apply post_bind; apply post_any; intro _ _
     apply post_pure
-    apply lit_good _ (by simp only [dfTag]; keys_decide) (by simp only [dfTag]; fields_cases)
+    apply lit_good _ (by simp only [dfTag]; keys_decide) (by simp only [dfTag]; keys_decide) (by simp only [dfTag]; fields_cases)
     simp only [dfTag]; range_cases
     exact squawk_octal f hf
   · -- DF11
     post_run
-    apply lit_good _ (by simp only [dfTag]; keys_decide) (by simp only [dfTag]; fields_cases)
+    apply lit_good _ (by simp only [dfTag]; keys_decide) (by simp only [dfTag]; keys_decide) (by simp only [dfTag]; fields_cases)
     simp only [dfTag]; range_cases
   · -- DF16
     post_run
     apply post_any; intro ac _
     apply post_bind; apply post_any; intro _ _
     post_run
-    apply lit_good _ (by simp only [dfTag]; keys_decide) (by simp only [dfTag]; fields_cases)
+    apply lit_good _ (by simp only [dfTag]; keys_decide) (by simp only [dfTag]; keys_decide) (by simp only [dfTag]; fields_cases)
     simp only [dfTag]; range_cases
   · -- DF17
     post_run
     refine post_mono (me_good H.adsb _) ?_
     intro m _ hm
     post_run
-    refine withFields_good (post := []) hm ?_ (by env_keys) (by env_keys)
+    refine withFields_good (post := []) hm ?_ (by env_keys) (by env_keys) timed_sub_env (by env_keys)
     intro kv hkv
     simp only [List.append_nil, List.mem_cons, List.mem_nil_iff, or_false, dfTag, fld] at hkv
     rcases hkv with rfl | rfl
@@ -262,7 +277,7 @@ theorem dfBody_good (H : AllGood) (crc id : Nat) (s : Rd) : post (dfBody crc id)
     refine post_mono (me_good H.adsb _) ?_
     intro m _ hm
     post_run
-    refine withFields_good (post := []) hm ?_ (by env_keys) (by env_keys)
+    refine withFields_good (post := []) hm ?_ (by env_keys) (by env_keys) timed_sub_env (by env_keys)
     intro kv hkv
     simp only [List.append_nil, List.mem_cons, List.mem_nil_iff, or_false, dfTag, fld] at hkv
     rcases hkv with rfl | rfl | rfl
@@ -271,7 +286,7 @@ theorem dfBody_good (H : AllGood) (crc id : Nat) (s : Rd) : post (dfBody crc id)
     · exact ⟨_, rfl, rfl, by spec_eval; simp⟩
   · -- DF19
     post_run
-    apply lit_good _ (by simp only [dfTag]; keys_decide) (by simp only [dfTag]; fields_cases)
+    apply lit_good _ (by simp only [dfTag]; keys_decide) (by simp only [dfTag]; keys_decide) (by simp only [dfTag]; fields_cases)
     simp only [dfTag]; range_cases
   · -- DF20
     apply post_bind; apply post_any; intro _ _
@@ -279,7 +294,7 @@ theorem dfBody_good (H : AllGood) (crc id : Nat) (s : Rd) : post (dfBody crc id)
     apply post_bind; refine post_mono (Commb.df20_good H.regs ac _) ?_
     intro b _ hb
     post_run
-    refine withFields_good hb ?_ (by env_keys) (by env_keys)
+    refine withFields_good hb ?_ (by env_keys) (by env_keys) timed_sub_commb (by env_keys)
     intro kv hkv
     simp only [List.cons_append, List.nil_append, List.mem_cons, List.mem_nil_iff, or_false, dfTag, fld] at hkv
     rcases hkv with rfl | rfl | rfl
@@ -292,7 +307,7 @@ theorem dfBody_good (H : AllGood) (crc id : Nat) (s : Rd) : post (dfBody crc id)
     apply post_bind; refine post_mono (Commb.df21_good H.regs _) ?_
     intro b _ hb
     post_run
-    refine withFields_good hb ?_ (by env_keys) (by env_keys)
+    refine withFields_good hb ?_ (by env_keys) (by env_keys) timed_sub_commb (by env_keys)
     intro kv hkv
     simp only [List.cons_append, List.nil_append, List.mem_cons, List.mem_nil_iff, or_false, dfTag, fld] at hkv
     rcases hkv with rfl | rfl | rfl
@@ -305,7 +320,7 @@ theorem dfBody_good (H : AllGood) (crc id : Nat) (s : Rd) : post (dfBody crc id)
       post_run
       apply post_any; intro md _
       post_run
-      apply lit_good _ (by simp only [dfTag]; keys_decide)
+      apply lit_good _ (by simp only [dfTag]; keys_decide) (by simp only [dfTag]; keys_decide)
       · simp only [dfTag]; fields_cases
         exact wf_arr_jnat _
       · simp only [dfTag]; range_cases
